@@ -16,7 +16,7 @@ import types
 from collections import deque
 from concurrent.futures import Future
 
-from vf.hutil import Oracle, exc_result, pick, quiet, untraced
+from vf.hutil import concrete, Oracle, exc_result, pick, quiet, untraced
 
 quiet()
 
@@ -187,10 +187,13 @@ class World:
     pass
 
 
+RAISE_TEXT = ['handler failed']      # text of the exception a RAISES handler raises (set by provider_raising_text)
+
+
 def _handler(outcome, target):
     def handler(params):  # noqa: ARG001
         if outcome == RAISES:
-            raise RuntimeError('handler failed')
+            raise RuntimeError(RAISE_TEXT[0])
         return pops.ExecuteResult(target, outcome)
     return handler
 
@@ -350,6 +353,58 @@ def provider_request(kind: int, known: bool, delayed: bool, npool: int, outcome:
         orc.check(len(w.operations[0].calls) == (1 if known else 0), 'handler_not_called_exactly_once')
     except Exception as ex:  # noqa: BLE001
         return exc_result(orc, ex)
+    return orc.result()
+
+
+# code points around every boundary of the XML 1.0 Char production (#x9 | #xA | #xD | [#x20-#xD7FF] | [#xE000-#xFFFD] | ...)
+TEXT_CODES = (0x0, 0x8, 0x9, 0xA, 0xB, 0xD, 0x15, 0x1B, 0x1F, 0x20, 0x3C, 0x26, 0x7F, 0xD7FF, 0xE000, 0xFFFD, 0xFFFE, 0xFFFF, 0x10000)
+
+
+def _xml_text_ok(text):
+    """Can this text be put on the wire? (the real lxml decides - what msgfactory would do with the report)"""
+    from lxml import etree
+    try:
+        etree.tostring(etree.Element('x', attrib={'a': text}))
+        el = etree.Element('x')
+        el.text = text
+        etree.tostring(el)
+    except ValueError:
+        return False
+    return True
+
+
+def provider_raising_text(kind: int, delayed: bool, csel: int, pos: int) -> str:
+    """
+    The handler raises an exception whose text contains an arbitrary character (selector over the boundary code points of the
+    XML Char production, at the start / inside / at the end of the text): the transaction still ends with exactly one Fail
+    that carries error information, and every text handed on for the response / the reports can be serialised.
+    pre: 0 <= kind < 7
+    pre: 0 <= csel < 19
+    pre: 0 <= pos < 3
+    post: __return__ == 'ok'
+    """
+    orc = Oracle()
+    try:
+        kind = pick(kind, range(7))
+        delayed = bool(delayed)
+        ch = chr(pick(csel, TEXT_CODES))
+        RAISE_TEXT[0] = pick(pos, (ch + 'dev', 'de' + ch + 'v', 'dev' + ch))
+        w = mk_world(kind, [(delayed, RAISES)])
+        resp = do_request(w, 'op0')
+        run_worker(w)
+        parts = notified(w)
+        check_transaction(orc, '', resp, parts, True, RAISES, delayed)
+        texts = [t.text for t in resp.InvocationInfo.InvocationErrorMessage]
+        for p in parts:
+            texts.extend(t.text for t in p.InvocationInfo.InvocationErrorMessage)
+        texts = concrete(texts)         # (lxml is C code: plain str objects only)
+        with untraced():
+            ok = all(_xml_text_ok(t) for t in texts)
+        orc.check(ok, 'error_text_cannot_be_serialised')
+    except Exception as ex:  # noqa: BLE001
+        return exc_result(orc, ex)
+    finally:
+        RAISE_TEXT[0] = 'handler failed'
     return orc.result()
 
 
